@@ -10,7 +10,7 @@ otherwise); element (i, j) lives in cell (i mod nrows) + (j mod ncols)*nrows; re
 cells in index order; assignments write exactly the addressed cells (later writes win) and nothing else; every buffer
 access is in bounds.  CPython API functions are contract stubs (type tests by object kind, PyLong_AsLong = the value,
 PySlice_GetIndicesEx = any legal triple, Matrix_NewFromSequence = an index matrix with arbitrary entries)."""
-import os, sys, json, time, tempfile, shutil, re
+import os, sys, json, time, tempfile, shutil, subprocess, re, re
 import z3
 
 MAXLEN = 2          # entries of an index list / slice length
@@ -508,6 +508,13 @@ def replay_model(variant, model, timeout=120):
 
 def replay_main(path):
     d = json.load(open(path))
+    if d.get('kind') == 'wrappers':
+        from vp import common
+        prog = 'from vp.xh.c15_props import wrappers_ok\nprint("RESULT", wrappers_ok(%d))\n' % d['code']
+        r = common.run_conc(['-c', prog])
+        ok = 'RESULT True' in r.stdout
+        print('cvxopt.%s: %s' % (d['what'], 'holds' if ok else 'REPRODUCED on the real build: ' + (r.stdout + r.stderr)[-200:]))
+        return 0 if ok else 1
     rep, why = replay_model(d['variant'], d['model'])
     if rep: print('REPRODUCED on the real build: %s' % rep); return 1
     print(why); return 0
@@ -521,6 +528,39 @@ def variants(tier):
             out.append(('get', ki, kj, None))
             for kv in ('float', 'dmat'): out.append(('set', ki, kj, kv))
     return out
+
+def wrappers_condition(tier, known):
+    """CrossHair over the encoded call shape of cvxopt.max/min/mul/div (function x call form x number of operands x scalar
+    position): value == elementwise reference, result is a new object, operands unchanged.  'Confirmed over all paths' required."""
+    from vp import common
+    from vp.checks.c13 import ensure_xh, run_condition
+    from vp.xh import c15_props as P
+    site = ensure_xh(); ov = common.overlay()
+    work = tempfile.mkdtemp(prefix='vp.c15x.', dir='/var/tmp')
+    try:
+        src = ('from vp.xh.c15_props import wrappers_ok\n'
+               'def wrappers(code: int) -> bool:\n    """\n    pre: 0 <= code < %d\n    post: _\n    """\n    return wrappers_ok(code)\n' % P.NCODES)
+        pyfile = os.path.join(work, 'c15gen.py'); open(pyfile, 'w').write(src)
+        env = dict(os.environ); env['PYTHONPATH'] = os.pathsep.join([ov, site, common.VERIF]); env['OMP_NUM_THREADS'] = '1'
+        nm, out, dt = run_condition((pyfile, 'wrappers', 3, 300 if tier == 'quick' else 900, env))
+        if 'Confirmed over all paths' in out: return [], [], [], [], 1
+        m = re.search(r'error: (.*?) when calling wrappers\((.*?)\)', out)
+        if m:
+            code = int(re.search(r'-?\d+', m.group(2)).group(0))
+            prog = 'from vp.xh.c15_props import wrappers_ok, decode\ntry:\n    print("RESULT", wrappers_ok(%d), decode(%d))\nexcept Exception as e:\n    print("RESULT EXC", type(e).__name__, e)\n' % (code, code)
+            r = subprocess.run(['/venv/bin/python', '-c', prog], capture_output=True, text=True, timeout=120, env=env)
+            native = [l for l in r.stdout.splitlines() if l.startswith('RESULT')]
+            native = native[-1][7:] if native else 'no result ' + r.stderr[-200:]
+            f, form, k, sp = P.decode(code)
+            what = '%s(%s of %d operand(s)%s)' % (['max', 'min', 'mul', 'div'][f], ['arguments', 'list', 'tuple', 'generator'][form], k, '' if sp < 0 or sp >= k else ', operand %d a scalar' % sp)
+            key = 'init:%s:%s' % (['max', 'min', 'mul', 'div'][f], ['args', 'list', 'tuple', 'generator'][form])
+            rp = common.write_replay('C15', key, {'property': 'C15', 'kind': 'wrappers', 'code': code, 'what': what, 'native': native})
+            if native.startswith('True'): return [], [], ['wrappers(%d): CrossHair counterexample does not reproduce natively' % code], [], 0
+            if key in known: return [], [(key, known[key]['what'])], [], [], 0
+            return [(key, rp, 'cvxopt.%s returns a wrong value, aliases an operand or modifies one -> %s' % (what, native))], [], [], [], 0
+        return [], [], [], ['wrappers: %s' % (out.strip().splitlines() or ['no output'])[-1][:200]], 0
+    finally:
+        shutil.rmtree(work, True)
 
 def main(tier):
     from vp import common
@@ -557,8 +597,15 @@ def main(tier):
             if rep is None: herr.append('%s: counterexample not reproduced on the real build (%s) %s' % (k, why, rp)); continue
             if k in known: known_hits.append((k, known[k]['what'])); continue
             violations.append((k, rp, '%s -> %s' % (groups[k][0]['text'], rep)))
+        # ---- engine X: the Python-level wrappers cvxopt.max / min / mul / div (src/python/__init__.py) on the real build
+        try:
+            xv, xk, xh, xi, nconf = wrappers_condition(tier, known)
+            violations += xv; known_hits += xk; herr += xh; inconc += xi
+            ev.obl['total'] += 1; ev.obl['unsat' if nconf else ('sat' if xv else 'unknown')] += 1
+        except Exception as e:
+            herr.append('wrappers condition: %s: %s' % (type(e).__name__, e))
         ev.cov.update({'states': max(1, paths), 'transitions': max(1, ev.obl['total']), 'traces_validated_against_impl': 0, 'configurations': len(cfgs),
-                       'functions_encoded': ['dense.c: matrix_subscr, matrix_ass_subscr, create_indexlist, matrix_set_size'], 'source_hash': ir.src_hash(cfile),
+                       'functions_encoded': ['dense.c: matrix_subscr, matrix_ass_subscr, create_indexlist, matrix_set_size', '__init__.py: max, min, mul, div (CrossHair, %d encoded call shapes)' % __import__('vp.xh.c15_props', fromlist=['x']).NCODES], 'source_hash': ir.src_hash(cfile),
                        'bounds': "'d' matrix with nrows, ncols <= 3 (symbolic, zero dimensions included), index kinds int / slice / integer matrix / list in every pairing and single-argument form, index lists and slices of length <= 2 with entries in [-8, 8], right-hand side a float or a 'd' matrix of any shape <= 2 x 2; loops unrolled accordingly"})
         ev.assumptions += ["CPython API functions are contract stubs: type tests by object kind, PyLong_AsLong = the int's value, PySlice_Unpack/AdjustIndices = any (start, step, length) whose selected indices lie in [0, dim), Matrix_NewFromSequence(list) = an integer matrix with arbitrary entries, Matrix_New succeeds",
                            'reference counting (Py_DECREF of temporaries) is not modelled; typecodes i and z, sparse right-hand sides, buffer / sequence right-hand sides and the other operations named in the property (constructors, arithmetic, promotion, in-place operators, iteration, elementwise functions) are not covered']
